@@ -314,6 +314,11 @@ func (h *HW) Run(cc core.Cfg, sim *simrt.Sim) *core.Outcome {
 		}
 		// everything readable must have been read by now + a few maintenance rounds
 		simrt.Sleep(5*cfg.MaintIvl + 2*time.Second)
+		if cfg.Forward {
+			// a reader parked on the full event pool of the inner pipeline may have to wait for the pool's own
+			// wake-up round (seconds): give it several of them
+			simrt.Sleep(30 * time.Second)
+		}
 		done = true
 		simrt.Stop("done")
 	})
